@@ -7,19 +7,24 @@
 EXTENDS Integers
 
 (* entry: [present, count, mq, evq]; evq = waiting in the eviction timer queue *)
+\* @type: { present: Bool, count: Int, mq: Bool, evq: Bool };
 NoEntry == [present |-> FALSE, count |-> 0, mq |-> FALSE, evq |-> FALSE]
 
 (* getSubscription(name, subscribe): new entry with count 1, or addCount (leaving the eviction queue) *)
+\* @type: ({ present: Bool, count: Int, mq: Bool, evq: Bool }, Bool) => { present: Bool, count: Int, mq: Bool, evq: Bool };
 GetSub(e, subscribe) ==
     IF ~e.present THEN [present |-> TRUE, count |-> 1, mq |-> subscribe, evq |-> FALSE]
     ELSE [e EXCEPT !.count = @ + 1, !.evq = IF e.count = 0 THEN FALSE ELSE @, !.mq = @ \/ subscribe]
 
 (* removeCount(n): entering the eviction queue when the count reaches zero *)
+\* @type: ({ present: Bool, count: Int, mq: Bool, evq: Bool }, Int) => { present: Bool, count: Int, mq: Bool, evq: Bool };
 RemCount(e, n) == [e EXCEPT !.count = @ - n, !.evq = IF e.count - n = 0 /\ n # 0 THEN TRUE ELSE @]
 (* timerqueue.Add panics on a duplicate *)
+\* @type: ({ present: Bool, count: Int, mq: Bool, evq: Bool }, Int) => Bool;
 RemCountSafe(e, n) == ~(e.count - n = 0 /\ n # 0 /\ e.evq)
 
 (* mqUnsubscribe of the current entry: aborted while in use *)
+\* @type: ({ present: Bool, count: Int, mq: Bool, evq: Bool }) => { present: Bool, count: Int, mq: Bool, evq: Bool };
 EvictRun(e) == IF e.count > 0 THEN e ELSE NoEntry
 
 =============================================================================
